@@ -67,7 +67,14 @@ def make_baseline(rng, m, kind, scale):
         return None if rng.integers(2) else 0.0
     if kind == "scalar":
         return float(rng.uniform(0.02, 0.25) * scale)
-    return rng.uniform(0.0, 0.25, m) * scale
+    b = rng.uniform(0.0, 0.25, m) * scale
+    if m >= 2 and rng.random() < 0.3:          # per-receptor baselines may contain exact zeros
+        z = rng.random(m) < 0.4
+        z[rng.integers(m)] = True
+        z[rng.integers(m)] = False if z.all() else z[rng.integers(m)]
+        if not z.all():
+            b = np.where(z, 0.0, b)
+    return b
 
 
 def make_bounds(rng, n, lbkind, ubkind, ub_wide=False):
